@@ -108,7 +108,10 @@ def gen_cmp_case(r):
 
 def gen_agg_case(r):
     if r.random() < 0.06:
-        return {'probe': 'jssort', 'mode': 'agg', 'a': r.choice([None, [gen_int(r)]]), 'b': None if r.random() < 0.7 else [gen_str(r)], 'mixed': False}
+        a = r.choice([None, [gen_int(r)]])
+        # (a number against a string goes through ToNumber: the string is drawn from the modelled part of ToNumber - a blank string is 0 in
+        #  JavaScript, NaN in the restricted model: seed-1 false alarm after the generators around it changed, DESIGN 11.2)
+        return {'probe': 'jssort', 'mode': 'agg', 'a': a, 'b': None if r.random() < 0.7 else [gen_str(r) if a is None else gen_mixed_str(r)], 'mixed': a is not None}
     mixed = r.random() < 0.25
     ka, kb = gen_key_pair(r, mixed)
     if not mixed and r.random() < 0.2:
